@@ -900,6 +900,33 @@ def run_mem_model(env, name, cases):
     return res
 
 
+def run_lang_model(env, name, impl_recs, order, stats):
+    """`langrun.run_model` with a large native stack for the extracted evaluator (its recursion depth follows
+    loop iterations and call depth); a batch that still dies is split, the culprit is left inconclusive."""
+    inp = os.path.join(env.work, name + ".model.in")
+    outp = os.path.join(env.work, name + ".model")
+    with open(inp, "w") as f:
+        for cid in order:
+            r = impl_recs.get(cid)
+            if not r or not r.get("ast") or not r.get("plan"):
+                continue
+            f.write("case %s\n%s\n%s\nend %s\n" % (cid, r["ast"], r["plan"], cid))
+    if os.path.exists(outp):
+        os.remove(outp)
+    cmd = "ulimit -s unlimited 2>/dev/null || ulimit -s 1000000 2>/dev/null; exec %s lang %s %s %s" % (
+        common.NSMODEL, langrun.eps_hex(), inp, outp)
+    rc, out = common.sh(["bash", "-c", cmd], timeout=1800)
+    if rc == 0:
+        return langrun.parse_records(open(outp).read().splitlines())
+    if len(order) <= 1:
+        stats["model_crashes"] = stats.get("model_crashes", 0) + 1
+        return {}
+    mid = len(order) // 2
+    res = run_lang_model(env, name + "a", impl_recs, order[:mid], stats)
+    res.update(run_lang_model(env, name + "b", impl_recs, order[mid:], stats))
+    return res
+
+
 def run_counters(env, name, cases, cfgs=("nf",)):
     """-> {id: {cfg: (resets, returns, promotions, ending, values)}} (programs must not crash natively)"""
     inp = os.path.join(env.work, name + ".ctr.in")
@@ -1068,7 +1095,7 @@ def correspond(env, searching=False, model=True):
                 continue
             # ---- model tie (a): the framed configurations agree with Lang.run_impl (no reclamation)
             if model and ok_cases:
-                mrecs = langrun.run_model(env, "m%d" % s0, recs, [c for c, _ in ok_cases])
+                mrecs = run_lang_model(env, "m%d" % s0, recs, [c for c, _ in ok_cases], extra)
                 for cid, src in ok_cases:
                     st, detail = langcheck.compare(recs[cid], mrecs.get(cid), cfgs=("nf", "pf"))
                     if st == "disagree" and len(disagreements) < 5:
